@@ -38,10 +38,10 @@ func (r *RandomRouter) Route(run flows.Run, step flows.Step, logEvent flows.Even
 	// pick a random category
 	rand := random.Decimal()
 	categoryNum := rand.Mul(decimal.New(int64(len(r.categories)), 0)).IntPart()
-	categoryUUID := r.categories[categoryNum].UUID()
 
-	exit, err := r.routeToCategory(run, step, categoryUUID, fmt.Sprintf("%d", categoryNum), rand.String(), nil, logEvent)
-	return exit, rand.String(), err
+	// route via the category we picked rather than looking it up again by UUID
+	exit := r.routeVia(run, step, r.categories[categoryNum], fmt.Sprintf("%d", categoryNum), rand.String(), nil, logEvent)
+	return exit, rand.String(), nil
 }
 
 //------------------------------------------------------------------------------------------
